@@ -106,7 +106,7 @@ def parseEntry (s : String) : Option Entry :=
   match (s.splitOn "/").headD "" with
   | "fromast" => some .fromAst | "ms_sane" => some .msSane | "ms_consensus" => some .msConsensus
   | "ms_insane" => some .msInsane | "wrapper" => some .wrapper | "desc" => some .descFromStr
-  | "tr_str" => some .trFromStr | "tr_new" => some .trNew | "wrapper_fixed" => some .wrapperFixed
+  | "tr_str" => some .trFromStr | "tr_new" => some .trNew
   | _ => none
 
 /-! ### judges -/
